@@ -46,9 +46,30 @@ Fixpoint resolve_use_pass (target : string -> option xnode) (href : xnode -> str
 Definition stroke_split_ids (i : option string) (fill_paints : bool) : list (option string) :=
   if fill_paints then [None; None] else [i].
 
-(* ^url[(]#([\w-]+)[)]$  (ASCII \w; Python's \w also admits non-ASCII letters — not modelled) *)
+(* ^url[(]#([\w.:-]+)[)](\s+\S+)?$  (ASCII \w; Python's \w also admits non-ASCII letters — not modelled) *)
 Definition is_word (c : ascii) : bool :=
-  is_lower c || is_upper c || is_digit c || Ascii.eqb c "_" || Ascii.eqb c "-".
+  is_lower c || is_upper c || is_digit c || Ascii.eqb c "_" || Ascii.eqb c "-" || Ascii.eqb c "." || Ascii.eqb c ":".
+Definition is_space_chr (c : ascii) : bool :=
+  Ascii.eqb c " " || Ascii.eqb c "009" || Ascii.eqb c "010" || Ascii.eqb c "011" || Ascii.eqb c "012" || Ascii.eqb c "013".
+Fixpoint drop_spaces (s : string) : nat * string :=
+  match s with
+  | String c r => if is_space_chr c then let '(n, rest) := drop_spaces r in (S n, rest) else (O, s)
+  | EmptyString => (O, EmptyString)
+  end.
+Fixpoint take_nonspace (s : string) : string * string :=
+  match s with
+  | String c r => if is_space_chr c then (EmptyString, s) else let '(w, rest) := take_nonspace r in (String c w, rest)
+  | EmptyString => (EmptyString, EmptyString)
+  end.
+Definition at_end (s : string) : bool := (s =? "") || (s =? String "010" EmptyString).   (* `$` also matches before a trailing newline *)
+(* what may follow the closing parenthesis: nothing, or white space and one fallback token *)
+Definition fallback_ok (rest : string) : bool :=
+  at_end rest ||
+  (let '(n, r1) := drop_spaces rest in
+   match n with
+   | O => false
+   | S _ => let '(w, r2) := take_nonspace r1 in negb (w =? "") && at_end r2
+   end).
 Fixpoint take_word (s : string) : string * string :=
   match s with
   | String c r => if is_word c then let '(w, rest) := take_word r in (String c w, rest) else (EmptyString, s)
@@ -57,8 +78,10 @@ Fixpoint take_word (s : string) : string * string :=
 Definition id_of_target (url : string) : option string :=
   if str_prefix "url(#" url then
     let '(w, rest) := take_word (substring 5 (String.length url - 5) url) in
-    (* `$` also matches before a trailing newline *)
-    if (negb (w =? "")) && ((rest =? ")") || (rest =? String ")" (String "010" EmptyString))) then Some w else None
+    match rest with
+    | String ")" after => if negb (w =? "") && fallback_ok after then Some w else None
+    | _ => None
+    end
   else None.
 
 (* _remove_orphaned_gradients: `els` are the (tag, id) of all elements carrying an id, `grads` the
